@@ -110,6 +110,10 @@ func main() {
 			}
 			cmd := exec.Command(bin, args...)
 			cmd.Env = append(env(), "GOMAXPROCS=1", "GOMEMLIMIT=6GiB")
+			if *tier == "thorough" {
+				// the thorough tier runs every explored item with the map-access race monitor on
+				cmd.Env = append(cmd.Env, "VERIF_RACE=1")
+			}
 			cmd.Dir = filepath.Join(verif, "engine")
 			outb, err := cmd.CombinedOutput()
 			if err != nil {
@@ -283,11 +287,12 @@ func main() {
 	cov["distinct_outcomes"] = outcomes
 	cov["caps_hit"] = caps
 	cov["harnesses"] = perH
+	cov["race_monitor"] = map[string]bool{"all_explored_items": *tier == "thorough", "c06/refresh": id == "C06"}
 	cov["explanation"] = "stateless exploration of the real implementation: every execution is an implementation trace, so traces_validated_against_impl == scheduled executions; states = distinct final happens-before fingerprints"
 	ev := map[string]interface{}{
 		"property_id": id, "tier": *tier, "seed": seed, "level": *level, "coverage": cov,
 		"wall_s": time.Since(start).Seconds(), "violations": nviol,
-		"assumptions": []string{"data-race freedom of the explored code between scheduling points (checked separately by the race pass where registered)",
+		"assumptions": []string{"data-race freedom of the explored code between scheduling points, except for map accesses of the rewritten packages: the happens-before race monitor is on for every explored item in the thorough tier and for c06/refresh in both tiers",
 			"the vrt shims implement Go's sync/chan/timer semantics", "values outside the stated alphabets and schedules above the deviation bound are not covered"},
 	}
 	if !*noEvidence {
